@@ -1324,6 +1324,51 @@ def type_expression_inputs(ctx, quick):
     return out
 
 
+SHAPE_TRAITS = {'Debug': 'Debug', 'Clone': 'Clone', 'CopyClone': 'Copy, Clone', 'PartialEq': 'PartialEq', 'PartialEqEq': 'PartialEq, Eq',
+                'PartialOrd': 'PartialEq, PartialOrd', 'Ord': 'PartialEq, Eq, PartialOrd, Ord', 'Hash': 'Hash', 'Default': 'Default', 'Deref': 'Deref',
+                'DerefDerefMut': 'Deref, DerefMut', 'DerefMut': 'DerefMut', 'Into': 'Into(u8)',
+                'All': 'Debug, Clone, PartialEq, Eq, PartialOrd, Ord, Hash, Default, Deref, DerefMut, Into(u8)'}
+SHAPE_MARK = {'Deref': 'Deref', 'DerefDerefMut': 'Deref, DerefMut', 'DerefMut': 'DerefMut', 'Into': 'Into(u8)', 'All': 'Deref, DerefMut, Into(u8)'}
+
+
+def degenerate_shape_inputs(ctx, quick):
+    """inputs from the degenerate-shape model (spec/EduceShapes.tla): empty and near-empty bodies / variant lists / field
+    lists under every trait request; each rendered unmarked and with the designating attribute on the first field"""
+    st = dict(ctx.coverage)
+    recs = model_check_tagged(ctx, [{'module': 'EduceShapes', 'cfg': 'MC_Shapes_quick.cfg' if quick else 'MC_Shapes_thorough.cfg', 'workers': 2, 'timeout': 600}], 'SHAPE')
+    for k in ('states', 'transitions'):
+        ctx.coverage[k] = ctx.coverage.get(k, 0) + st.get(k, 0)
+    ctx.coverage['mc_runs'] = st.get('mc_runs', []) + ctx.coverage.get('mc_runs', [])
+    cover = dict(st.get('coverage_per_action', {}))
+    cover.update(ctx.coverage.get('coverage_per_action', {}))
+    ctx.coverage['coverage_per_action'] = cover
+    if not any(p['style'] != 'unit' and p['n'] == 0 for r in recs for p in r['parts']):
+        raise ToolError('EduceShapes emitted no zero-field non-unit part: the degenerate corner is not covered')
+    out = []
+
+    def body(p, mark):
+        fs = []
+        for i in range(p['n']):
+            a = '#[educe(%s)] ' % mark if (mark and i == 0) else ''
+            fs.append(a + ('u8' if p['style'] == 'tuple' else 'f%d: u8' % i))
+        if p['style'] == 'unit':
+            return ''
+        return ('(%s)' if p['style'] == 'tuple' else ' { %s }') % ', '.join(fs)
+    for r in recs:
+        traits = SHAPE_TRAITS[r['traits']]
+        marks = [''] + ([SHAPE_MARK[r['traits']]] if r['traits'] in SHAPE_MARK and any(p['n'] for p in r['parts']) else [])
+        for mark in marks:
+            if r['kind'] == 'struct':
+                p = r['parts'][0]
+                out.append('#[educe(%s)] struct T%s%s' % (traits, body(p, mark), '' if p['style'] == 'named' else ';'))
+            else:
+                dv = [''] + (['#[educe(Default)] '] if 'Default' in traits and r['parts'] else [])
+                for d in dv:
+                    vs = ['%sV%d%s' % (d if i == 0 else '', i, body(p, mark)) for i, p in enumerate(r['parts'])]
+                    out.append('#[educe(%s)] enum T { %s }' % (traits, ', '.join(vs)))
+    return out
+
+
 def c17(ctx):
     quick = ctx.tier == 'quick'
     recs = injection_records(ctx, quick)
@@ -1366,8 +1411,13 @@ def c17(ctx):
         rid = 'y%d' % j
         requests.append({'id': rid, 'text': text})
         meta[rid] = {'mode': 'total'}
-    ctx.info('%d inputs (%d from the scanner model, %d structural, %d token mutations, %d stress, %d from the type-expression grammar)' %
-             (len(requests), len(recs), len(neg), len(muts), len(stress_inputs()), len(tys)))
+    shp = degenerate_shape_inputs(ctx, quick)
+    for j, text in enumerate(shp):
+        rid = 'd%d' % j
+        requests.append({'id': rid, 'text': text})
+        meta[rid] = {'mode': 'total'}
+    ctx.info('%d inputs (%d from the scanner model, %d structural, %d token mutations, %d stress, %d from the type-expression grammar, %d degenerate shapes)' %
+             (len(requests), len(recs), len(neg), len(muts), len(stress_inputs()), len(tys), len(shp)))
     recs_raw = xchan.expand(exe, requests)
     # inputs that do not even parse as a derive input are never handed to the macro by the compiler: drop them
     keep = [r for r in recs_raw if r['outcome'] not in ('lex', 'noinput')]
@@ -1398,7 +1448,7 @@ def c17(ctx):
         'inputs_not_parsing_as_derive_input': dropped,
         'rule': 'all inputs of the scanner model (every value kind at every parameter of every trait at every position), the structural negatives, seeded token-level '
                 'mutations of those (delete / duplicate / swap / wrap in a group / replace a literal / splice), depth/length stress inputs, and every type expression of the '
-                'type grammar model (EduceTypes.tla: 19 leaves x 15 wrappers to depth 2, 3 in the thorough tier) as a field type (named / tuple / enum variant) and as an Into target; inputs that do not parse as '
+                'type grammar model (EduceTypes.tla: 19 leaves x 15 wrappers to depth 2, 3 in the thorough tier) as a field type (named / tuple / enum variant) and as an Into target, and every degenerate shape of EduceShapes.tla (struct bodies and up to 2 (thorough: 3) enum variants, each unit / tuple / named with 0..2 fields, incl. `enum T {}`, `V()` and `V {}`) under 14 trait requests, unmarked and with the designating attribute on the first field; inputs that do not parse as '
                 'a derive input are dropped (the compiler never calls the macro on them); outcome must be ok or err; panics/hangs are confirmed through the real compiler',
         'samples': [{'input': muts[0] if muts else ''}, {'input': requests[3]['text']}],
     })
